@@ -25,7 +25,7 @@ structure St where
 
 def init (toks : List String) : Option St := do
   let cfg ← cfg? toks
-  pure { core := { m := CAStoreMem.init cfg } }
+  pure { core := { m := CAStoreMem.init cfg, rps := ((kv? toks "rps").bind nat?).getD 0 } }
 
 def pfx (p s : String) : Option String := if s.startsWith p then some (s.drop p.length).toString else none
 
